@@ -1097,7 +1097,7 @@ mutual
   /-- `NamesConsistent`: at every variable, looking the binder up by *text* (all the printer emits)
   finds the same binder as looking it up by *unique* (what the program means). -/
   def scopeOk : List Name → Term Name → Bool
-    | env, .var n => idxOf n.text (env.map (·.text)) == idxOf n.unique (env.map (·.unique))
+    | env, .var n => idxOf (nameChars n) (env.map nameChars) == idxOf n.unique (env.map (·.unique))
     | env, .lam n b => scopeOk (n :: env) b
     | env, .app f a => scopeOk env f && scopeOk env a
     | env, .delay t => scopeOk env t
